@@ -31,6 +31,7 @@ type Program struct {
 	funcIDs  map[*ssa.Function]int
 	addrTaken []*ssa.Function
 	addrDone  bool
+	globalLens map[*ssa.Global]int64
 }
 
 type keyDesc struct {
@@ -184,6 +185,48 @@ func (p *Program) FuncID(f *ssa.Function) int {
 	id := 1000 + len(p.funcIDs)
 	p.funcIDs[f] = id
 	return id
+}
+
+// GlobalSliceLen: the global is a slice initialised once, in the package initialiser, from a composite
+// literal of n elements, and never assigned anywhere else; then len == cap == n always.
+func (p *Program) GlobalSliceLen(g *ssa.Global) (int64, bool) {
+	p.mu.Lock()
+	defer p.mu.Unlock()
+	if p.globalLens == nil {
+		p.globalLens = map[*ssa.Global]int64{}
+		stores := map[*ssa.Global]int{}
+		for fn := range p.allFuncs {
+			for _, b := range fn.Blocks {
+				for _, in := range b.Instrs {
+					st, ok := in.(*ssa.Store)
+					if !ok {
+						continue
+					}
+					gg, ok := st.Addr.(*ssa.Global)
+					if !ok {
+						continue
+					}
+					stores[gg]++
+					if fn.Name() == "init" && fn.Synthetic != "" {
+						if sl, ok := st.Val.(*ssa.Slice); ok && sl.Low == nil && sl.High == nil {
+							if al, ok := sl.X.(*ssa.Alloc); ok {
+								if at, ok := al.Type().(*types.Pointer).Elem().Underlying().(*types.Array); ok {
+									p.globalLens[gg] = at.Len()
+								}
+							}
+						}
+					}
+				}
+			}
+		}
+		for gg := range p.globalLens {
+			if stores[gg] != 1 {
+				delete(p.globalLens, gg)
+			}
+		}
+	}
+	n, ok := p.globalLens[g]
+	return n, ok
 }
 
 // BoundTarget maps a bound-method wrapper to the method it wraps (other functions map to themselves);
